@@ -251,7 +251,9 @@ class Concat(Expr):
                     else frame
                 )
                 for frame, cols in zip(self._frames, columns_frame)
-                if len(cols) > 0
+                # when stacking rows, a frame without any of the selected
+                # columns still contributes its (all-missing) rows
+                if len(cols) > 0 or self.axis == 0
             ]
             result = type(self)(
                 self.join,
